@@ -82,6 +82,8 @@ the unchanged tree.
 |---|---|---|---|---|---|---|---|---|
 %s
 ''' % '\n'.join(rows)
+if os.path.exists('sweep_results.md'):
+    body += '\n' + open('sweep_results.md').read()
 between('S12', body)
 open('DESIGN.md', 'w').write(s)
 print('DESIGN.md regenerated: %s fix commits, %d/%d seeded changes caught' % (nfix, caught, len(res)))
